@@ -1,6 +1,7 @@
 import ZarrsModel.Model.Store
 import ZarrsModel.Model.FsStore
 import ZarrsModel.Model.AsyncRmw
+import ZarrsModel.Model.MultiGet
 import ZarrsModel.Driver.Proto
 /- driver handlers for C08: stateful (one model store per case) -/
 namespace Zarrs.DriverC08
@@ -97,14 +98,15 @@ def handle (st : St) (l : Line) : Option (St × List String × Option String) :=
     let reqs ← ((← l.get "kr").splitOn ";").mapM (fun t => match t.splitOn "@" with
       | [k, r] => (parseRange r).map (fun r => (k.toList, r))
       | _ => none)
-    let answers := reqs.map (fun (k, r) => (Spec.step st.m (.getPartial k [r])).2)
-    let shown := answers.map (fun a => match a with
-      | .parts (some [b]) => "some:" ++ showHex b
-      | .parts none => "none"
-      | _ => "err")
-    let out := if shown.contains "err" then "err" else "multi " ++ ";".intercalate shown
+    -- prediction: the loop as written (`Model/MultiGet.lean`); `Props/C08Multi: batched_eq_reqwise` proves it equal to the
+    -- request-by-request specification, which is cross-checked here at run time
+    let pred := MultiGet.batched st.m reqs
+    let out := match pred with
+      | none => "err"
+      | some xs => "multi " ++ ";".intercalate (xs.map (fun x => match x with | none => "none" | some b => "some:" ++ showHex b))
+    let note := if pred == MultiGet.reqwise st.m reqs then none else some "MultiGet.batched differs from MultiGet.reqwise"
     -- (`spec=0`: the key universe is not prefix-free, the ordered-map specification does not apply)
-    pure (st, if st.specOn then [out] else ["any"], none)
+    pure (st, if st.specOn then [out] else ["any"], note)
   else
     let op ← parseOp l
     let (m', r) := Spec.step st.m op
